@@ -333,3 +333,10 @@ SPECS["C14"]["not_covered"] = ["Roland volume/performance/patch/partial record d
 SPECS["C14"]["level_text"] += ". Added: Roland sample directory / parameter record damage sweep for a performance of 4 samples"
 SPECS["C11"]["bounded"].append(("contracts.e2e_more", "bounded:chain_lookup_history"))
 SPECS["C16"]["bounded"].append(("contracts.e2e_more", "bounded:chain_lookup_history"))
+
+from contracts import layouts as _layouts
+for _pid, _keys in _layouts.BY_PROPERTY.items():
+    SPECS[_pid]["layouts"] = _keys
+    SPECS[_pid]["level_text"] += ". Layout obligations: the LIVE construct declarations (dumped on every run, compiled structs through .defersubcon) agree field by field (offset, width, signedness, endianness, enum tables, array counts) with independent literal layout tables"
+SPECS["C20"]["level"] = "proof"
+SPECS["C01"]["level_text"] += "; the sample window expressions of SampleHeaderConstruct (size = 2*(end-start), offset = 140 + 2*start) are proved equal to the statement's window by z3 over the dumped expression trees"
